@@ -84,9 +84,11 @@ func (wrapper EpochsHooksWrapper) AfterEpochEnd(
 				// must not be dereferenced in BeginBlock
 				continue
 			}
-			diff := types.Difference(taskInfo.OptInOperators, signedOperatorList)
+			// the non-signers are the opted-in operators without a signed result; an operator
+			// that signed without being in OptInOperators must not be listed as a non-signer
+			// too (types.Difference is symmetric)
 			taskInfo.SignedOperators = signedOperatorList
-			taskInfo.NoSignedOperators = diff
+			taskInfo.NoSignedOperators = types.Subtract(taskInfo.OptInOperators, signedOperatorList)
 			taskInfo.OperatorActivePower = &types.OperatorActivePowerList{OperatorPowerList: operatorPowers}
 			// Calculate actual threshold
 			taskPowerTotal, err := wrapper.keeper.operatorKeeper.GetAVSUSDValue(ctx, avsAddr)
